@@ -673,11 +673,10 @@ protected:
 		}
 		else if constexpr (std::is_unsigned_v<Arith>) {
 			if (0 == v) return f;
-			if constexpr (arithmetic == Saturate) {
-				constexpr fixpnt<nbits, rbits, arithmetic, bt> maxpos(SpecificValue::maxpos), maxneg(SpecificValue::maxneg);
-				// check if we are in the representable range
-				if (v >= static_cast<Arith>(maxpos)) { return maxpos; }
-				if (v <= static_cast<Arith>(maxneg)) { return maxneg; }
+			if constexpr (arithmetic == Saturate && (nbits - rbits) <= 64) { // a wider integer part holds every value of Arith
+				constexpr fixpnt<nbits, rbits, arithmetic, bt> maxpos(SpecificValue::maxpos);
+				// check if we are in the representable range: an unsigned value can only exceed the integer part of maxpos
+				if (v > static_cast<unsigned long long>(static_cast<long long>(maxpos))) { return maxpos; }
 			}
 			constexpr uint64_t mask = 0x1;
 			unsigned upper = (nbits - rbits) <= 64 ? nbits : 64;
